@@ -317,6 +317,9 @@ def gen_project(rng, n_keys, locales, namespaces=None, wide=False, inherits=None
                     f = rng.choice(FORMS + ["other"])          # make sure the count is shown somewhere
                     forms[f] = forms.get(f, []) + [("V", _w(rng), "count", _w(rng), None), ("T", " " + f)]
                 forms["other"] = forms.get("other") or gen_items(rng, 1, 3) or [("T", "other")]
+                if loc == p.locales[0] and len(forms) == 1:
+                    # a lone `key_other` is the plural `key` only if some locale declares more forms: the default does
+                    forms[rng.choice(FORMS)] = [("T", "form")]
                 k.values[loc] = ("plural", ordinal, forms)
             elif wide and kind < 0.54:
                 n = rng.choice([26, 27, 28, 52, 53, 60, 80])
@@ -355,6 +358,8 @@ def gen_project(rng, n_keys, locales, namespaces=None, wide=False, inherits=None
                 f = rng.choice(FORMS + ["other"])
                 forms[f] = forms.get(f, []) + [("V", _w(rng), "count", _w(rng), None), ("T", " " + f)]
                 forms["other"] = forms.get("other") or [("T", "other")]
+                if len(forms) == 1:
+                    forms["few"] = [("T", "few")]
                 t.values[loc] = ("plural", ordinal, forms)
             p.keys.append(t)
             k = PKey(len(p.keys), t.path[:-1] + ("r%d" % t.id,))
